@@ -96,6 +96,67 @@ def _block(stmts):
     return out
 
 
+BATOMS = {
+    'any((x.dtype != args[0].dtype for x in args[1:]))': 'BCond.dtypesDiffer',
+    'any((x.dtype not in _BLAS_DTYPES for x in args))': 'BCond.dtypeNotBlas',
+    'all((x.flags.f_contiguous for x in args))': 'BCond.allF',
+    'all((x.flags.c_contiguous for x in args))': 'BCond.allC',
+    "any((x.size > np.iinfo('int32').max for x in args))": 'BCond.tooBig',
+}
+
+
+def _bcond(node):
+    if isinstance(node, ast.BoolOp):
+        op = 'BCond.and' if isinstance(node.op, ast.And) else 'BCond.or'
+        parts = [_bcond(v) for v in node.values]
+        out = parts[0]
+        for q in parts[1:]:
+            out = '({} {} {})'.format(op, out, q)
+        return out
+    if isinstance(node, ast.UnaryOp) and isinstance(node.op, ast.Not):
+        return '(BCond.not {})'.format(_bcond(node.operand))
+    u = _u(node)
+    if u in BATOMS:
+        return BATOMS[u]
+    raise ExtractionError('unknown test in _blas_is_applicable: ' + u)
+
+
+def _btree(stmts):
+    """An if/elif/else chain whose bodies are `return True/False`."""
+    stmts = _strip_doc(stmts)
+    if len(stmts) != 1:
+        raise ExtractionError('_blas_is_applicable: expected a single if-chain or return')
+    st = stmts[0]
+    if isinstance(st, ast.Return) and isinstance(st.value, ast.Constant) and \
+            isinstance(st.value.value, bool):
+        return '(BTree.ret {})'.format('true' if st.value.value else 'false')
+    if isinstance(st, ast.If):
+        if not st.orelse:
+            raise ExtractionError('_blas_is_applicable: if without else')
+        return '(BTree.ite {} {} {})'.format(_bcond(st.test), _btree(st.body),
+                                             _btree(st.orelse))
+    raise ExtractionError('_blas_is_applicable: unknown statement ' + _u(st))
+
+
+def _blas_tree(tree):
+    fn = None
+    for node in tree.body:
+        if isinstance(node, ast.FunctionDef) and node.name == '_blas_is_applicable':
+            fn = node
+    if fn is None:
+        raise ExtractionError('_blas_is_applicable not found')
+    if fn.args.vararg is None or fn.args.vararg.arg != 'args' or fn.args.args:
+        raise ExtractionError('_blas_is_applicable signature changed')
+    blas_dtypes = None
+    for node in tree.body:
+        if isinstance(node, ast.Assign) and _u(node.targets[0]) == '_BLAS_DTYPES':
+            blas_dtypes = _u(node.value)
+    want = "(np.dtype('float32'), np.dtype('float64'), np.dtype('complex64'), np.dtype('complex128'))"
+    if blas_dtypes != want:
+        raise ExtractionError('_BLAS_DTYPES changed: ' + repr(blas_dtypes))
+    return _btree(fn.body)
+
+
 def extract(repo=core.REPO):
     path = os.path.join(repo, 'odl', 'space', 'npy_tensors.py')
     with open(path) as f:
@@ -176,6 +237,7 @@ def extract(repo=core.REPO):
     if blas != want:
         raise ExtractionError('BLAS regime changed: ' + repr(blas))
     prog = _stmt(body[2])
+    btree = _blas_tree(tree)
     lean = '''/- GENERATED by tools/extract/lincomb.py from odl/space/npy_tensors.py — do not edit. -/
 import OdlModel.Model.Lincomb
 namespace OdlModel.Gen.Lincomb
@@ -187,13 +249,20 @@ def thrMedium : Nat := {medium}
 def fbGuard : Bool := {guard}
 /-- `if a == 0 and b == 0: out.data[:] = 0; return` precedes the regime selection iff true. -/
 def zeroGuard : Bool := {szg}
+/-- `_blas_is_applicable(x1.data, x2.data, out.data)` as an if/elif chain. -/
+def blasTree : BTree :=
+  {btree}
 /-- The alias/scalar dispatch of `_lincomb_impl`, in program order. -/
 def prog : Stmt :=
   {prog}
 
+def params : Params :=
+  {{ thrSmall := thrSmall, thrMedium := thrMedium, fbGuard := fbGuard, zeroGuard := zeroGuard,
+     blasTree := blasTree, prog := prog }}
+
 end OdlModel.Gen.Lincomb
 '''.format(small=consts['THRESHOLD_SMALL'], medium=consts['THRESHOLD_MEDIUM'], guard=guard,
-           szg=zero_guard, prog=prog)
+           szg=zero_guard, prog=prog, btree=btree)
     return lean
 
 
